@@ -214,7 +214,10 @@ T["T7"] = (doc(
     types=I("U4_T", 4) + I("U8_T", 8),
     params=[("P1", "U4_T"), ("P2", "U4_T"), ("P3", "U8_T"), ("P4", "U8_T"), ("P_UNUSED", "U8_T")],      # P_UNUSED is in no entry list
     root_entries=[],
-    children=cont("OUTER1", ["P1", "@SHARED"], "CCSDSPacket", CMP("APID", "1"))
+    children=cont("OUTER0", ["P4", "@MID"], "CCSDSPacket", CMP("APID", "5"))          # nests MID BEFORE MID's own definition ...
+    + cont("MID", ["P1"], "CCSDSPacket", CMP("APID", "4"))                              # ... and MID is also on an inheritance path: root -> MID -> LEAF
+    + cont("LEAF", ["P3"], "MID", CMP("P1", "1"))
+    + cont("OUTER1", ["P1", "@SHARED"], "CCSDSPacket", CMP("APID", "1"))
     + cont("SHARED", ["P2"], abstract="false")
     + cont("OUTER2", ["@SHARED", "P3", "@SHARED"], "CCSDSPacket", CMP("APID", "2"))
     + cont("CHILD_OF_SHARED", ["P3", "P4"], "SHARED", CMP("P2", "1"))
